@@ -68,6 +68,9 @@ pub fn server_main() -> i32 {
 fn mode_config(mode: u8) -> walrus::ModuleConfig {
     let mut cfg = crate::wal::Cfg { dwarf: mode == 3, code_transform: mode == 2, ..crate::wal::Cfg::plain() }.to_config();
     if mode == 2 {
+        // location ids shared by several instructions (and functions): the
+        // map handed to custom sections must still be the same in both builds
+        cfg.on_instr_loc(|pos| walrus::InstrLocId::new(*pos as u32 % 97));
         cfg.on_parse(|m, _| {
             m.customs.add(crate::spy::EchoSection::default());
             Ok(())
@@ -210,9 +213,9 @@ mod par {
             )
         };
         let mut cfg = mode_config(mode);
-        cfg.on_instr_loc(|pos| {
+        cfg.on_instr_loc(move |pos| {
             perturb(*pos as u64);
-            walrus::InstrLocId::new(*pos as u32)
+            walrus::InstrLocId::new(if mode == 2 { *pos as u32 % 97 } else { *pos as u32 })
         });
         pool.install(|| {
             let mut m = match crate::wal::parse(bytes, &cfg)? {
